@@ -89,7 +89,7 @@ func c16VideoCodec(cfg muxCfg, kind string, par int) (string, *regexp.Regexp) {
 		return s, nil
 	case "av1":
 		var sh av1.SequenceHeader
-		if err := sh.Unmarshal(av1Params[par].seqHdr); err != nil {
+		if err := sh.Unmarshal(cfg.pset(kind, par).seqHdr); err != nil {
 			return "?", nil
 		}
 		tier := "M"
@@ -97,7 +97,24 @@ func c16VideoCodec(cfg muxCfg, kind string, par int) (string, *regexp.Regexp) {
 			tier = "H"
 		}
 		prefix := fmt.Sprintf("av01.%d.%02d%s.%02d", sh.SeqProfile, sh.SeqLevelIdx[0], tier, sh.ColorConfig.BitDepth)
-		return prefix, regexp.MustCompile("^" + regexp.QuoteMeta(prefix) + `(\.[0-9]\.[0-9]{3}\.[0-9]{2}\.[0-9]{2}\.[0-9]{2}\.[01])?$`)
+		// the optional tail (AV1 codecs parameter string): monochrome, chroma subsampling (x, y, sample position), colour
+		// primaries, transfer characteristics, matrix coefficients, full-range flag - in that order. All of it or none of it.
+		b := func(v bool) int {
+			if v {
+				return 1
+			}
+			return 0
+		}
+		cc := sh.ColorConfig
+		chroma := fmt.Sprintf(".%d.%d%d%d", b(cc.MonoChrome), b(cc.SubsamplingX), b(cc.SubsamplingY), cc.ChromaSamplePosition)
+		if cc.ColorDescriptionPresentFlag {
+			full := prefix + chroma + fmt.Sprintf(".%02d.%02d.%02d.%d", cc.ColorPrimaries, cc.TransferCharacteristics, cc.MatrixCoefficients, b(cc.ColorRange))
+			// the short form is only allowed when the tail would hold the default values, which a colour description of
+			// BT.2020 / PQ never does
+			return full, nil
+		}
+		// no colour description in the stream: the defaults of the string (1.1.1, limited range) or "unspecified" (2.2.2)
+		return prefix, regexp.MustCompile("^" + regexp.QuoteMeta(prefix) + "(" + regexp.QuoteMeta(chroma) + `\.(01\.01\.01|02\.02\.02)\.` + fmt.Sprint(b(cc.ColorRange)) + ")?$")
 	case "vp9":
 		ps := cfg.pset(kind, par)
 		prefix := fmt.Sprintf("vp09.%02d.", ps.profile)
